@@ -323,7 +323,13 @@ func Run(j *job.Job, s *job.Sink) {
 				return t[:k] + extra + t[k:]
 			}
 			v1 = addTail(v1, "  identity zzidrev;\n  typedef zzrt { type string; units \"old\"; }\n")
-			v2 = addTail(v2, "  identity zzidrev;\n  identity zzidnew { base zzidrev; }\n  typedef zzrt { type int8; units \"new\"; }\n")
+			if r.Intn(4) == 0 {
+				// the newer revision no longer has the typedef: what resolved against the
+				// older one must fail now, and leave nothing of the earlier result behind
+				v2 = addTail(v2, "  identity zzidrev;\n  identity zzidnew { base zzidrev; }\n")
+			} else {
+				v2 = addTail(v2, "  identity zzidrev;\n  identity zzidnew { base zzidrev; }\n  typedef zzrt { type int8; units \"new\"; }\n")
+			}
 			revUser := fmt.Sprintf("module zzrevuser {\n  namespace \"urn:zzrevuser\";\n  prefix zru;\n  import %s { prefix zp; }\n  identity zzy { base zp:zzidrev; }\n  typedef zzlocal { type zp:zzrt; }\n  leaf zzl { type identityref { base zp:zzidrev; } }\n  leaf zzt { type zp:zzrt; }\n  leaf zzt2 { type zzlocal; }\n  leaf zzu { type union { type zp:zzrt; type boolean; } }\n}\n", m.Name)
 			replaced := false
 			for k := range ops {
@@ -564,7 +570,7 @@ func Run(j *job.Job, s *job.Sink) {
 								e := yang.ToEntry(m.Modules[k])
 								var cs []string
 								for cn, ce := range e.Dir {
-									cs = append(cs, fmt.Sprintf("%s/%v/%d", cn, ce.Kind, len(ce.Dir)))
+									cs = append(cs, fmt.Sprintf("%s/%v/%d/type=%v/errors=%d", cn, ce.Kind, len(ce.Dir), ce.Type != nil, len(ce.Errors)))
 								}
 								sort.Strings(cs)
 								fmt.Fprintf(&b, "AFTER-FAILED-RUN %s: %v augments-pending=%d\n", k, cs, len(e.Augments))
